@@ -33,6 +33,7 @@ Definition enc_step (s : step) : Z :=
   | SAppend21 _ => 300001
   | SWriteMeta o => 400000 + owner_code o
   | SCorrupt p => 500000 + path_code p
+  | SCheckBegin => 650000
   | SVerify _ => 600000
   | SUnlink p mok => 700000 + 2 * path_code p + enc_bool mok
   | SCompBegin o => 800000 + owner_code o
